@@ -28,6 +28,7 @@ type memConn struct {
 	local     net.Addr
 	remote    net.Addr
 	timeouts  int // pending timeout errors to return from Read before data
+	coalesce  bool // the last data of the stream is returned together with the EOF / read error
 	tag       string
 	serveID   string
 }
@@ -68,6 +69,15 @@ func (c *memConn) Read(p []byte) (int, error) {
 			n := copy(p, c.inbox[0])
 			if n == len(c.inbox[0]) {
 				c.inbox = c.inbox[1:]
+				if c.coalesce && len(c.inbox) == 0 {
+					// io.Reader allows n > 0 together with the error (crypto/tls does it)
+					if c.rdErr != nil {
+						return n, c.rdErr
+					}
+					if c.rdEOF {
+						return n, io.EOF
+					}
+				}
 			} else {
 				c.inbox[0] = c.inbox[0][n:]
 			}
@@ -134,6 +144,7 @@ func (c *memConn) deliver(b []byte) {
 }
 func (c *memConn) peerEOF()          { c.mu.Lock(); c.rdEOF = true; c.cond.Broadcast(); c.mu.Unlock() }
 func (c *memConn) readError(e error) { c.mu.Lock(); c.rdErr = e; c.cond.Broadcast(); c.mu.Unlock() }
+func (c *memConn) timeout()          { c.mu.Lock(); c.timeouts++; c.cond.Broadcast(); c.mu.Unlock() }
 func (c *memConn) isClosed() bool    { c.mu.Lock(); defer c.mu.Unlock(); return c.closed }
 func (c *memConn) allWritten() []byte {
 	c.mu.Lock()
